@@ -1051,7 +1051,8 @@ func (c *Client) resend(conn net.Conn, seqNoOffset uint, seq *seq, space uint) e
 		}
 
 		if seqNo < seq.submitN && packet[0]>>4 == typePUBLISH {
-			packet[0] |= dupeFlag
+			// Load may return the buffer of the Persistence.
+			packet = append([]byte{packet[0] | dupeFlag}, packet[1:]...)
 		}
 
 		err = writeTo(conn, packet, c.PauseTimeout)
